@@ -23,6 +23,7 @@ import (
 	"fmt"
 	"net/url"
 	"strconv"
+	"sync"
 	"time"
 
 	"github.com/ProtonMail/go-crypto/openpgp"
@@ -103,7 +104,13 @@ func (v *FlagValues) mergeAll(defs *pflag.FlagSet, getter func(string) string) {
 	v.mergeSet(common, getter)
 }
 
+// pflag sorts and caches a FlagSet's flags on first traversal, so concurrent
+// requests must not walk the shared definitions at the same time
+var flagDefsMu sync.Mutex
+
 func (v *FlagValues) mergeSet(defs *pflag.FlagSet, getter func(string) string) {
+	flagDefsMu.Lock()
+	defer flagDefsMu.Unlock()
 	defs.VisitAll(func(flag *pflag.Flag) {
 		value := getter(flag.Name)
 		if value != "" {
